@@ -125,8 +125,13 @@ func init() {
 					cfg.IllTyped = 40 // erroneous scripts
 				}
 				g := NewGen(r, cfg)
-				prog := g.Program()
-				if i%4 == 2 {
+				var prog *GProgram
+				if i%7 == 3 {
+					prog = g.overdraftOriginProgram() // needs --experimental-overdraft-function to reach the interpreter
+				} else {
+					prog = g.Program()
+				}
+				if i%4 == 2 && i%7 != 3 {
 					nameEdits(g, prog, r) // warning-only / unbound scripts
 				}
 				sc = scenarioFromGen(g, prog, 0, r)
